@@ -1001,6 +1001,10 @@ mod threads {
         TokioFlush,
         #[cfg(feature = "tokio")]
         TokioSend,
+        #[cfg(feature = "tokio")]
+        TokioAsyncFlush,
+        #[cfg(feature = "tokio")]
+        TokioAsyncSend,
     }
 
     impl Entry {
@@ -1020,6 +1024,27 @@ mod threads {
                 Entry::TokioFlush => "tokio::blocking_flush",
                 #[cfg(feature = "tokio")]
                 Entry::TokioSend => "tokio::blocking_send",
+                #[cfg(feature = "tokio")]
+                Entry::TokioAsyncFlush => "tokio::flush",
+                #[cfg(feature = "tokio")]
+                Entry::TokioAsyncSend => "tokio::send",
+            }
+        }
+
+        /// The async variants (only exercised in the extreme-timeout state, from async contexts).
+        pub fn all_async() -> Vec<Entry> {
+            #[allow(unused_mut)]
+            let mut v = vec![];
+            #[cfg(feature = "tokio")]
+            v.extend([Entry::TokioAsyncFlush, Entry::TokioAsyncSend]);
+            v
+        }
+
+        fn is_async(self) -> bool {
+            match self {
+                #[cfg(feature = "tokio")]
+                Entry::TokioAsyncFlush | Entry::TokioAsyncSend => true,
+                _ => false,
             }
         }
 
@@ -1027,7 +1052,7 @@ mod threads {
             match self {
                 Entry::SyncSend => true,
                 #[cfg(feature = "tokio")]
-                Entry::TokioSend => true,
+                Entry::TokioSend | Entry::TokioAsyncSend => true,
                 _ => false,
             }
         }
@@ -1084,6 +1109,9 @@ mod threads {
         FullStalled,
         NoReceiverRunning,
         ReceiverDropped,
+        /// full queue, processor parked on a gate that is opened once the caller really waits:
+        /// the operation is guaranteed to complete on its own (used with extreme timeouts)
+        Released,
     }
 
     impl State {
@@ -1095,6 +1123,7 @@ mod threads {
                 State::FullStalled => "full+stalled-receiver",
                 State::NoReceiverRunning => "no-receiver-running",
                 State::ReceiverDropped => "receiver-dropped",
+                State::Released => "full+parked-receiver-released",
             }
         }
     }
@@ -1125,6 +1154,39 @@ mod threads {
         }
     }
 
+    #[derive(Clone, Copy, Debug, PartialEq, Eq, Hash)]
+    pub enum Tmo {
+        Ms(u64),
+        Hour,
+        HalfU64Secs,
+        U64Secs,
+        Max,
+    }
+
+    impl Tmo {
+        pub const EXTREME: [Tmo; 4] = [Tmo::Hour, Tmo::HalfU64Secs, Tmo::U64Secs, Tmo::Max];
+
+        pub fn dur(self) -> Duration {
+            match self {
+                Tmo::Ms(ms) => Duration::from_millis(ms),
+                Tmo::Hour => Duration::from_secs(3600),
+                Tmo::HalfU64Secs => Duration::from_secs(u64::MAX / 2),
+                Tmo::U64Secs => Duration::from_secs(u64::MAX),
+                Tmo::Max => Duration::MAX,
+            }
+        }
+
+        pub fn class(self) -> String {
+            match self {
+                Tmo::Ms(ms) => format!("{}ms", ms),
+                Tmo::Hour => "1h".into(),
+                Tmo::HalfU64Secs => "u64max/2-secs".into(),
+                Tmo::U64Secs => "u64max-secs".into(),
+                Tmo::Max => "Duration::MAX".into(),
+            }
+        }
+    }
+
     /// What the blocking call returned.
     #[derive(Debug, Clone)]
     pub enum Ret {
@@ -1147,7 +1209,59 @@ mod threads {
             Entry::TokioFlush => Ret::Flush(emit_batcher::tokio::blocking_flush(sender, t)),
             #[cfg(feature = "tokio")]
             Entry::TokioSend => of(emit_batcher::tokio::blocking_send(sender, item, t)),
+            #[cfg(feature = "tokio")]
+            Entry::TokioAsyncFlush | Entry::TokioAsyncSend => unreachable!("async entry points go through call_async"),
         }
+    }
+
+    #[cfg(feature = "tokio")]
+    async fn call_async(entry: Entry, sender: Arc<Sender<Chan>>, item: u64, t: Duration) -> Ret {
+        match entry {
+            Entry::TokioAsyncFlush => Ret::Flush(emit_batcher::tokio::flush(&sender, t).await),
+            Entry::TokioAsyncSend => match emit_batcher::tokio::send(&sender, item, t).await {
+                Ok(()) => Ret::SendOk,
+                Err(e) => Ret::SendErr(e.into_retryable()),
+            },
+            other => call(other, &sender, item, t),
+        }
+    }
+
+    /// Await the async entry point in calling context `ctx`. `None` = the context has no executor
+    /// to await on (plain thread, spawn_blocking).
+    #[cfg(feature = "tokio")]
+    fn in_ctx_async(ctx: Ctx, entry: Entry, sender: Arc<Sender<Chan>>, item: u64, t: Duration) -> Option<Result<Ret, String>> {
+        fn joined(res: Result<Ret, tokio::task::JoinError>) -> Result<Ret, String> {
+            match res {
+                Ok(r) => Ok(r),
+                Err(e) if e.is_panic() => Err(panic_message(&e.into_panic())),
+                Err(e) => Err(format!("task failed: {}", e)),
+            }
+        }
+        let mt = || tokio::runtime::Builder::new_multi_thread().worker_threads(2).enable_all().build().unwrap();
+        let ct = || tokio::runtime::Builder::new_current_thread().enable_all().build().unwrap();
+        let fut = call_async(entry, sender, item, t);
+        let guarded = |f: &mut dyn FnMut() -> Result<Ret, String>| match catch_unwind(AssertUnwindSafe(|| quiet(f))) {
+            Ok(r) => r,
+            Err(p) => Err(panic_message(&p)),
+        };
+        let mut fut = Some(fut);
+        Some(match ctx {
+            Ctx::PlainThread | Ctx::MtSpawnBlocking => return None,
+            Ctx::MtWorker => guarded(&mut || {
+                let f = fut.take().unwrap();
+                joined(mt().block_on(async move { tokio::spawn(f).await }))
+            }),
+            Ctx::MtBlockOn => guarded(&mut || Ok(mt().block_on(fut.take().unwrap()))),
+            Ctx::CurrentThread => guarded(&mut || Ok(ct().block_on(fut.take().unwrap()))),
+            Ctx::CurrentThreadTask => guarded(&mut || {
+                let f = fut.take().unwrap();
+                joined(ct().block_on(async move { tokio::spawn(f).await }))
+            }),
+            Ctx::MtBlockOnLocalSet => guarded(&mut || {
+                let local = tokio::task::LocalSet::new();
+                Ok(mt().block_on(local.run_until(fut.take().unwrap())))
+            }),
+        })
     }
 
     /// Run `f` in calling context `ctx`; `Err(panic message)` if it panicked there.
@@ -1265,6 +1379,11 @@ mod threads {
         pub setup_failed: Option<String>,
         pub item: u64,
         pub elapsed: Duration,
+        /// Released cells: did the caller really wait before the gate was opened
+        pub really_waited: bool,
+        /// Released cells: later operations on the same channel (Err = one of them panicked;
+        /// Ok((first flush, second flush)))
+        pub later: Option<Result<(bool, bool), String>>,
     }
 
     enum Sup {
@@ -1291,7 +1410,7 @@ mod threads {
         let (sender, receiver) = bounded::<Chan>(cap);
         let sender = Arc::new(sender);
         let delivered: Delivered = Arc::new(Mutex::new(Vec::new()));
-        let gate = Gate::new(state != State::FullStalled);
+        let gate = Gate::new(!matches!(state, State::FullStalled | State::Released));
         let mut handle = None;
         let mut parked_receiver = None;
         let mut setup_failed = None;
@@ -1299,7 +1418,7 @@ mod threads {
             State::EmptyLive => {
                 handle = Some(start_receiver(rk, receiver, delivered.clone(), gate.clone(), 0).unwrap());
             }
-            State::FullStalled => {
+            State::FullStalled | State::Released => {
                 handle = Some(start_receiver(rk, receiver, delivered.clone(), gate.clone(), 0).unwrap());
                 sender.send(1);
                 if !gate.wait_arrivals(1, WATCHDOG) {
@@ -1322,17 +1441,70 @@ mod threads {
                 drop(receiver);
             }
         }
+        // Released: open the gate once the caller really waits (its watcher is registered)
+        let call_over = Arc::new(std::sync::atomic::AtomicBool::new(false));
+        let releaser = if state == State::Released && setup_failed.is_none() {
+            let (s, gate, call_over, is_send) = (sender.clone(), gate.clone(), call_over.clone(), entry.is_send());
+            Some(thread::spawn(move || {
+                let begin = Instant::now();
+                let mut waited = false;
+                while begin.elapsed() < Duration::from_secs(10) && !call_over.load(Ordering::SeqCst) {
+                    let snap = s.verif_snapshot();
+                    if (is_send && snap.on_take >= 1) || (!is_send && snap.on_flush >= 1) {
+                        waited = true;
+                        break;
+                    }
+                    thread::sleep(Duration::from_micros(200));
+                }
+                if waited {
+                    thread::sleep(Duration::from_millis(30));
+                }
+                gate.open();
+                waited
+            }))
+        } else {
+            None
+        };
         started.set(());
         let start = Instant::now();
         let ret = if setup_failed.is_none() {
             let s = sender.clone();
-            in_ctx(ctx, move || call(entry, &s, ITEM, t))
+            if entry.is_async() {
+                #[cfg(feature = "tokio")]
+                {
+                    in_ctx_async(ctx, entry, s, ITEM, t).unwrap_or_else(|| Err("no executor in this context".into()))
+                }
+                #[cfg(not(feature = "tokio"))]
+                {
+                    let _ = s;
+                    Err("async entry points need tokio".into())
+                }
+            } else {
+                in_ctx(ctx, move || call(entry, &s, ITEM, t))
+            }
         } else {
             Err("setup failed".into())
         };
         let elapsed = start.elapsed();
+        call_over.store(true, Ordering::SeqCst);
         returned.set(());
+        let really_waited = releaser.map(|h| h.join().unwrap_or(false)).unwrap_or(false);
         gate.open();
+        // Released: later operations on the same channel still work
+        let later = if state == State::Released && setup_failed.is_none() {
+            let s2 = sender.clone();
+            Some(catch(move || {
+                if !emit_batcher::sync::blocking_flush(&s2, Duration::from_secs(20)) {
+                    return (false, false);
+                }
+                s2.send(7777);
+                let _ = s2.try_send(7778);
+                let _ = s2.verif_snapshot();
+                (true, emit_batcher::sync::blocking_flush(&s2, Duration::from_secs(20)))
+            }))
+        } else {
+            None
+        };
         drop(parked_receiver);
         drop(sender);
         let joined = handle.map(|h| matches!(join_bounded(h, WATCHDOG), Some(Ok(()))));
@@ -1344,6 +1516,8 @@ mod threads {
             setup_failed,
             item: ITEM,
             elapsed,
+            really_waited,
+            later,
         }
     }
 
@@ -1359,7 +1533,23 @@ mod threads {
                         let t_ms = if round == 0 { 30 } else { *g.pick(&[0u64, 1, 5, 30, 60, 100]) };
                         let cap = 1 + g.usize(3);
                         let rk = RecvKind::pick(&mut g);
-                        cells.push((round, entry, ctx, state, rk, t_ms, cap));
+                        cells.push((round, entry, ctx, state, rk, Tmo::Ms(t_ms), cap));
+                    }
+                }
+            }
+        }
+        // extreme timeouts in a state where the operation completes on its own
+        for round in 0..args.n(2, 8) {
+            for entry in Entry::all().into_iter().chain(Entry::all_async()) {
+                for ctx in Ctx::all() {
+                    if entry.is_async() && matches!(ctx.name(), "plain-thread" | "tokio-mt-spawn_blocking") {
+                        continue; // nothing to await on there
+                    }
+                    for tmo in Tmo::EXTREME {
+                        let mut g = Rng::stream(seed, &[8, 4, round, hash_of(&(entry, ctx, tmo))]);
+                        let cap = 1 + g.usize(3);
+                        let rk = RecvKind::pick(&mut g);
+                        cells.push((round, entry, ctx, State::Released, rk, tmo, cap));
                     }
                 }
             }
@@ -1383,8 +1573,8 @@ mod threads {
                     if abort.load(Ordering::SeqCst) {
                         break;
                     }
-                    let (round, entry, ctx, state, rk, t_ms, cap) = cell;
-                    let t = Duration::from_millis(t_ms);
+                    let (round, entry, ctx, state, rk, tmo, cap) = cell;
+                    let t = tmo.dur();
                     let done: Done<CellOut> = Done::new();
                     let (started, returned): (Done<()>, Done<()>) = (Done::new(), Done::new());
                     let (d2, s2, r2) = (done.clone(), started.clone(), returned.clone());
@@ -1393,20 +1583,30 @@ mod threads {
                         .spawn(move || d2.set(run_cell(entry, ctx, state, rk, t, cap, &s2, &r2)));
                     // the only wall-clock verdict: the call itself must be back within 100*T + 10 s.
                     // Setting the cell up and joining its receiver have their own (inconclusive) watchdogs.
-                    let limit = t * 100 + Duration::from_secs(10);
+                    // (Released cells complete on their own: there the limit is a plain watchdog.)
+                    let limit = if state == State::Released {
+                        WATCHDOG
+                    } else {
+                        t.checked_mul(100).and_then(|d| d.checked_add(Duration::from_secs(10))).unwrap_or(Duration::MAX)
+                    };
                     let verdict = if started.wait(WATCHDOG + Duration::from_secs(5)).is_none() {
                         Sup::Watchdog("the cell never got as far as the blocking call")
-                    } else if returned.wait(limit).is_none() {
-                        // nothing more to learn from further cells that would hang the same way
-                        abort.store(true, Ordering::SeqCst);
-                        Sup::Deadlock
                     } else {
-                        match done.wait(WATCHDOG + Duration::from_secs(5)) {
-                            Some(out) => Sup::Out(out),
-                            None => Sup::Watchdog("the cell did not clean up within the watchdog"),
+                        let back = returned.wait(limit).is_some();
+                        if !back && state == State::Released {
+                            Sup::Watchdog("the call did not return within the watchdog after the gate was opened")
+                        } else if !back {
+                            // nothing more to learn from further cells that would hang the same way
+                            abort.store(true, Ordering::SeqCst);
+                            Sup::Deadlock
+                        } else {
+                            match done.wait(WATCHDOG + Duration::from_secs(5)) {
+                                Some(out) => Sup::Out(out),
+                                None => Sup::Watchdog("the cell did not clean up within the watchdog"),
+                            }
                         }
                     };
-                    results.lock().unwrap().push((round, entry, ctx, state, rk, t_ms, cap, limit, verdict));
+                    results.lock().unwrap().push((round, entry, ctx, state, rk, tmo, cap, limit, verdict));
                 })
             })
             .collect();
@@ -1414,11 +1614,15 @@ mod threads {
             let _ = h.join();
         }
         let results = std::mem::take(&mut *results.lock().unwrap());
-        for (round, entry, ctx, state, rk, t_ms, cap, limit, out) in results {
+        for (round, entry, ctx, state, rk, tmo, cap, limit, out) in results {
             r.eval();
+            let t_ms = match tmo {
+                Tmo::Ms(ms) => ms,
+                _ => u64::MAX,
+            };
             let case = json!({
                 "section": "ctx", "seed": seed, "round": round, "entry": entry.name(), "context": ctx.name(),
-                "state": state.name(), "receiver": rk.name(), "timeout_ms": t_ms, "capacity": cap,
+                "state": state.name(), "receiver": rk.name(), "timeout": tmo.class(), "capacity": cap,
             });
             let cell_sig = format!("{}:{}:{}", entry.name(), ctx.name(), state.name());
             let out = match out {
@@ -1444,6 +1648,15 @@ mod threads {
             r.observe(&format!("ctx:context:{}", ctx.name()), 1);
             r.observe(&format!("ctx:state:{}", state.name()), 1);
             r.nontrivial(&("ctx", entry, ctx, state));
+            if state == State::Released {
+                released_oracle(r, entry, ctx, tmo, &out, &case);
+                match out.joined {
+                    Some(true) => r.observe("ctx:receiver-threads-joined", 1),
+                    Some(false) => r.inconclusive(format!("ctx cell {}: receiver thread had not joined within the watchdog", cell_sig)),
+                    None => {}
+                }
+                continue;
+            }
             match &out.ret {
                 Err(msg) => {
                     r.violation(
@@ -1523,6 +1736,63 @@ mod threads {
                 let el = out.elapsed;
                 r.sample(move || json!({"cell": case, "returned": ret, "elapsed_ms": el.as_secs_f64() * 1000.0}));
             }
+        }
+    }
+
+    /// Extreme timeouts on an operation that completes on its own: true / Ok, no panic, the item
+    /// delivered exactly once, the channel still usable afterwards.
+    fn released_oracle(r: &mut Report, entry: Entry, ctx: Ctx, tmo: Tmo, out: &CellOut, case: &Json) {
+        let tc = format!("timeout={}", tmo.class());
+        r.observe(&format!("ctx:extreme:{}", tc), 1);
+        if out.really_waited {
+            r.observe("ctx:extreme:caller-was-blocked-when-the-gate-opened", 1);
+        }
+        r.nontrivial(&("ctx-extreme", entry, ctx, tmo));
+        let n = out.delivered.iter().flatten().filter(|x| **x == out.item).count();
+        match &out.ret {
+            Err(msg) => r.violation(
+                &format!("C08:ctx:panic:{}:{}:{}", entry.name(), ctx.name(), tc),
+                &format!("{} panicked when called from {} with timeout {} on a queue that was drained while it waited: {}", entry.name(), ctx.name(), tmo.class(), msg),
+                case.clone(),
+            ),
+            Ok(Ret::Flush(true)) => r.observe("ctx:extreme:flush-true", 1),
+            Ok(Ret::SendOk) => {
+                r.observe("ctx:extreme:send-ok", 1);
+                if out.joined == Some(true) && n != 1 {
+                    r.violation(
+                        &format!("C08:ctx:extreme:item-delivered-{}-times:{}:{}", if n == 0 { "zero" } else { "several" }, entry.name(), tc),
+                        &format!("{} with timeout {} returned Ok but the item reached on_batch {} times", entry.name(), tmo.class(), n),
+                        case.clone(),
+                    );
+                }
+            }
+            Ok(other) => r.violation(
+                &format!("C08:ctx:gave-up-before-timeout:{}:{}:{}", entry.name(), ctx.name(), tc),
+                &format!(
+                    "{} from {} with timeout {} returned {:?} after {:?} although the receiver processed everything long before the timeout",
+                    entry.name(), ctx.name(), tmo.class(), other, out.elapsed
+                ),
+                case.clone(),
+            ),
+        }
+        match &out.later {
+            Some(Err(m)) => r.violation(
+                &format!("C08:ctx:channel-unusable-after:{}:{}", entry.name(), tc),
+                &format!("after {} with timeout {} a later operation on the same channel panicked: {}", entry.name(), tmo.class(), m),
+                case.clone(),
+            ),
+            Some(Ok((true, true))) => {
+                r.observe("ctx:extreme:later-operations-worked", 1);
+                if out.joined == Some(true) && !out.delivered.iter().flatten().any(|x| *x == 7777) {
+                    r.violation(
+                        &format!("C08:ctx:later-send-lost:{}:{}", entry.name(), tc),
+                        "an item sent after the extreme-timeout call (into a flushed, empty queue) never reached on_batch",
+                        case.clone(),
+                    );
+                }
+            }
+            Some(Ok(_)) => r.inconclusive("ctx extreme: a 20 s flush after the call returned false; later-operation checks skipped"),
+            None => {}
         }
     }
 
